@@ -6,6 +6,7 @@ CONSTANTS
   Depth = 0
   CatCut = 1
   WordCut = 1
+  Mode = "train"
   AfixCut = 1
   SpellOf <- NoSpelling
 POSTCONDITION Consumed
